@@ -16,6 +16,7 @@ TRUSTED = ['rustc MIR construction (nightly)', 'pdb-facts driver', 'rule engine 
 
 
 def run(ctx):
+    shared.chain_link_markers_agree(ctx, '8m')
     F = ctx.F
     # 1. header follows its fields
     writers = set()
